@@ -132,13 +132,41 @@ def gen_consts(repo):
     if len(cyc) != 1 or _src(cyc[0].value).replace(" ", "") != \
             "[repo_idforrepo_idinnot_processed_sub_componentsifrepo_idindfs_path_names]":
         raise ExtractError("ReposCollection.__init__: unrecognised cycle test")
+    # --- RepoBuildsByTagDetector.finalize_build_tag_info: the tests that choose the route from a tag to major.minor
+    det = _find_class(tree, "RepoBuildsByTagDetector")
+    f = _find_func(det, "finalize_build_tag_info")
+    tests = [_src(n.test).replace(" ", "") for n in f.body if isinstance(n, ast.If)]
+    route = [t for t in tests if "patch" not in t]
+    if route != ["all((visnotNoneforvin[parsed_bt.major,parsed_bt.minor]))", "majorisnotNone"]:
+        raise ExtractError(f"finalize_build_tag_info: unrecognised route tests {route} (the model has: major and minor "
+                           f"already known -> keep; guessed major `is not None` -> take the guess; else the saved version)")
+    pr = _find_class(tree, "ProjectRepo")
+    f = _find_func(pr, "guess_major_minor_build_by_tag_substr")
+    rets = [_src(n.value).replace(" ", "") for n in ast.walk(f) if isinstance(n, ast.Return) and n.value is not None]
+    if sorted(rets) != ["(None,None)", "(int(m.group('major')),int(m.group('minor')))"]:
+        raise ExtractError(f"guess_major_minor_build_by_tag_substr: unrecognised returns {rets}")
+    pats = {}
+    for n in pr.body:
+        if isinstance(n, ast.Assign) and isinstance(n.targets[0], ast.Name) and n.targets[0].id.startswith("_RE_B") \
+                and isinstance(n.value, ast.Call) and n.value.args and isinstance(n.value.args[0], ast.Constant):
+            pats[n.targets[0].id] = n.value.args[0].value
+    if pats != {"_RE_BUILD_TAG": r"build_(?P<build>\d+)_(?P<branch>.*)_success$",
+                "_RE_BRANCH_IN_TAG_SUBSTR": r"release_(?P<major>\d+)_(?P<minor>\d+)$"}:
+        raise ExtractError(f"ProjectRepo: unrecognised build tag patterns {pats} (the harness renders tags for these two)")
+    f = _find_func(pr, "get_saved_build_number")
+    unk = [_src(n.value).replace(" ", "") for n in ast.walk(f) if isinstance(n, ast.Assign)
+           and _src(n.targets[0]).replace(" ", "") == "(major,minor,patch)"]
+    if unk != ["('?','?','?')"]:
+        raise ExtractError(f"get_saved_build_number: unrecognised fallback version {unk}")
     text = ("(* generated from ak/ghist.py by harness/props/c07.py -- do not edit *)\n"
             "From AK Require Import Common.Err.\nFrom Coq Require Import List.\nImport ListNotations.\n"
             "Inductive prune_kind := PruneAtFrom.\n"
             "Inductive rb_clause := ClNew | ClBump | ClMerge.\n"
             f"Definition src_prune : prune_kind := {prune_kind}.\n"
             f"Definition src_is_rbuild : list rb_clause := [{'; '.join(known[c] for c in clauses)}].\n"
-            f"Definition src_cycle_err : err := {emap[exc]}.\n")
+            f"Definition src_cycle_err : err := {emap[exc]}.\n"
+            "Inductive tag_route := RouteKnown | RouteGuessIsNotNone | RouteSaved.\n"
+            "Definition src_tag_routes : list tag_route := [RouteKnown; RouteGuessIsNotNone; RouteSaved].\n")
     return {"C07_Consts": text}
 
 
@@ -193,8 +221,54 @@ def vstr(v):
     return ".".join(str(x) for x in v)
 
 
+# ---- build tags.  A tag of a case is one of
+#   [M, m, n]            build_<n>_release_<M>_<m>_success          (major.minor guessed from the tag text)
+#   [M, m, n, "z"]       the same with leading zeros in all three numbers (build_0<n>_release_00<M>_0<m>_success)
+#   ["w", k, n]          build_<n>_<WORDS[k]>_success: the text names no release series, major.minor come from the
+#                        version file saved in the commit (commit["ver"] = [M, m]); no / unreadable file -> '?'.'?'.n
+#   ["f", M, m, n]       ok-<M>.<m>-<n>: a project specific tag format, parse_buildtag (overridden by the harness
+#                        classes, the documented extension point) delivers major and minor itself
+QM = -1                  # the string '?' as a version component (the model's [qm])
+WORDS = ["master", "main", "nightly", "release_1", "release_1_1_x", "prerelease_1_2", "pre_release_1_2", "hotfix_1_1"]
+SAVED_FILE = "VERSION"
+
+
+def tag_name(t):
+    if t[0] == "w":
+        return f"build_{t[2]}_{WORDS[t[1]]}_success"
+    if t[0] == "f":
+        return f"ok-{t[1]}.{t[2]}-{t[3]}"
+    if len(t) > 3:
+        return f"build_0{t[2]}_release_00{t[0]}_0{t[1]}_success"
+    return f"build_{t[2]}_release_{t[0]}_{t[1]}_success"
+
+
+def tag_version(c, t):
+    """the build number (major, minor, build) a tag on commit c stands for -- what the property's 'build' means"""
+    if t[0] == "w":
+        v = c.get("ver")
+        return (v[0], v[1], t[2]) if isinstance(v, list) else (QM, QM, t[2])
+    if t[0] == "f":
+        return (t[1], t[2], t[3])
+    return (t[0], t[1], t[2])
+
+
+def versions(c):
+    return [tag_version(c, t) for t in c.get("tags", [])]
+
+
+def vkey(v):
+    """BuildNumData order: integers numerically, '?' above every integer"""
+    return tuple((1, 0) if x == QM else (0, x) for x in v)
+
+
+def has_qm(v):
+    return QM in v
+
+
 class MockRepo:
-    """spec = {"commits": [{"id", "p": [ids], "m": 0/1, "tags": [[M,m,n]], "pin": [M,m,n]|None}], "branches": [[name, head]]}"""
+    """spec = {"commits": [{"id", "p": [ids], "m": 0/1, "tags": [tag], "ver": [M,m]|"bad"|absent, "pin": [M,m,n]|None}],
+               "branches": [[name, head]]}"""
 
     def __init__(self, name, spec, comp_name=None):
         self.git_dir = "/mock/" + name
@@ -203,6 +277,8 @@ class MockRepo:
             files = {}
             if c.get("pin") is not None and comp_name is not None:
                 files["DEPENDS"] = json.dumps({comp_name: vstr(c["pin"])})
+            if c.get("ver") is not None:
+                files[SAVED_FILE] = "no version here\n" if c["ver"] == "bad" else f"{c['ver'][0]}.{c['ver'][1]}.77\n"
             msg = f"fix {SEARCH_TEXT} here" if c.get("m") else "unrelated"
             self.commits[c["id"]] = _Commit(name, c["id"], msg, files)
         for c in spec["commits"]:
@@ -212,8 +288,8 @@ class MockRepo:
         for bname, head in spec["branches"]:
             self.refs["refs/remotes/origin/" + bname] = self.commits[head].hexsha
         for c in spec["commits"]:
-            for (M, m, n) in c.get("tags", []):
-                self.refs[f"refs/tags/build_{n}_release_{M}_{m}_success"] = self.commits[c["id"]].hexsha
+            for t in c.get("tags", []):
+                self.refs["refs/tags/" + tag_name(t)] = self.commits[c["id"]].hexsha
         self.remotes = {"origin": _Remote(["origin/" + b for b, _ in spec["branches"]])}
 
     def commit(self, hexsha):
@@ -307,6 +383,58 @@ def _close(rng, commits, tips, cid):
     return tips[0], cid
 
 
+# release series (major, minor) of the component's first branch: mostly the plain 1.1, else boundary values:
+# 0 as major and/or minor, several digits, 9 -> 10 roll-over into the second branch, the parent's own series
+SERIES = [(1, 1), (1, 1), (1, 1), (1, 1), (0, 9), (0, 0), (0, 1), (1, 0), (10, 240), (9, 9), (5, 1), (1, 9), (0, 99)]
+BUILD_OFFSETS = [0, 0, 0, 0, -1, -1, 95, 4150]      # build number = commit id + offset; ids start at 1, so -1 gives build 0
+
+
+def _mk_tag(rng, exotic, M, m, n):
+    """-> (tag, saved version the commit needs for it | None)"""
+    if rng.random() >= exotic:
+        return [M, m, n], None
+    k = rng.random()
+    if k < 0.25:
+        return [M, m, n, "z"], None
+    if k < 0.45:
+        return ["f", M, m, n], None
+    if k < 0.85:
+        return ["w", rng.randrange(len(WORDS)), n], [M, m]
+    return ["w", rng.randrange(len(WORDS)), n], rng.choice([None, "bad"])      # a build numbered '?'.'?'.n
+
+
+def _tag_commit(rng, exotic, c, M, m, n, second):
+    """build tag(s) for one commit; `second`: a second build number n+1 on the same commit"""
+    tag, ver = _mk_tag(rng, exotic, M, m, n)
+    c["tags"] = [tag]
+    if second:
+        t2, v2 = _mk_tag(rng, exotic, M, m, n + 1)
+        if tag[0] != "w":
+            ver = v2                       # else: one saved version file per commit, the first tag decided it
+        c["tags"].append(t2)
+        if rng.random() < 0.5:
+            c["tags"].reverse()
+    if any(t[0] == "w" for t in c["tags"]):
+        if ver is not None:
+            c["ver"] = ver
+    elif rng.random() < exotic * 0.3:
+        c["ver"] = rng.choice([[M, m], [M + 1, 0], "bad"])     # a saved version that nothing should read
+    return c
+
+
+def _unique_tag_names(spec):
+    """a tag name refers to one commit in git: drop a tag whose name an earlier commit already carries"""
+    used = set()
+    for c in spec:
+        keep = []
+        for t in c["tags"]:
+            if tag_name(t) not in used:
+                used.add(tag_name(t))
+                keep.append(t)
+        c["tags"] = keep
+    return spec
+
+
 def gen_component(rng, linear, two_branches):
     n = rng.randint(3, 9)
     commits, tips, cid = _gen_dag(rng, n, linear)
@@ -315,38 +443,52 @@ def gen_component(rng, linear, two_branches):
     branch_of = {}
     for c, ps in commits:
         branch_of[c] = 1
-    branches = [["release/1.1", head1]]
+    s1 = rng.choice(SERIES)
+    s2 = (s1[0], s1[1] + 1) if rng.random() < 0.6 else (s1[0] + 1, 0)
+    series = {1: s1, 2: s2}
+    off = {1: rng.choice(BUILD_OFFSETS)}
+    off[2] = off[1]
+    branches = [[f"release/{s1[0]}.{s1[1]}", head1]]
     if two_branches:
         base = rng.choice([c for c, _ in commits])
         more, tips2, cid = _gen_dag(rng, rng.randint(1, 4), True, first_id=cid)
+        if rng.random() < 0.5:
+            off[2] = off[1] - (more[0][0] - 1)     # the second series restarts: equal build numbers in both series
         more[0] = (more[0][0], [base])
         for c, ps in more:
             branch_of[c] = 2
         commits += more
-        branches.append([rng.choice(["release/1.2", "master"]), tips2[0]])
+        branches.append([rng.choice([f"release/{s2[0]}.{s2[1]}", "master"]), tips2[0]])
     ptag = rng.choice([0.5, 0.7, 0.9])
     pm = rng.choice([0.3, 0.5, 0.8])
+    exotic = rng.choice([0.0, 0.0, 0.0, 0.15, 0.4])
     for c, ps in commits:
-        tags = [[1, branch_of[c], c]] if rng.random() < ptag else []
-        if tags and rng.random() < 0.12:
-            tags.append([1, branch_of[c], c + 1])        # two build tags on one commit
-        spec.append({"id": c, "p": ps, "m": int(rng.random() < pm), "tags": tags})
+        d = {"id": c, "p": ps, "m": int(rng.random() < pm), "tags": []}
+        if rng.random() < ptag:
+            M, m = series[branch_of[c]]
+            _tag_commit(rng, exotic, d, M, m, c + off[branch_of[c]], rng.random() < 0.12)
+            if two_branches and branch_of[c] == 1 and rng.random() < exotic * 0.3:
+                d["tags"].append([s2[0], s2[1], c + off[1]])       # the same number in the other series, same commit
+        spec.append(d)
     rng.shuffle(branches)
-    return {"commits": spec, "branches": branches}
+    return {"commits": _unique_tag_names(spec), "branches": branches}
 
 
 def gen_parent(rng, comp, mode):
     """mode: 'domain' (pins never decrease, name existing builds), 'wild' (anything)"""
-    versions = sorted(tuple(t) for c in comp["commits"] for t in c["tags"])
+    versions_ = sorted(v for c in comp["commits"] for v in versions(c) if not has_qm(v))
     nb = rng.choice([1, 1, 2, 2, 3])
     linear = rng.random() < 0.6
     commits = []
     branch_of = {}
     branches = []
     cid = 1
-    names = ["release/5.9", "release/5.10", "master"] if rng.random() < 0.3 else ["release/5.1", "release/5.2", "master"]
+    PM = rng.choice([5, 5, 5, 5, 0, 0, 10, versions_[0][0]])
+    pm0 = rng.choice([1, 1, 1, 0, 0, 9, 99])
+    poff = rng.choice(BUILD_OFFSETS[:-1])
+    names = [f"release/{PM}.{pm0}", f"release/{PM}.{pm0 + 1}", "master"]
     if nb < 3 and rng.random() < 0.5:
-        names = names[:nb - 1] + ["master"] if nb > 1 else rng.choice([["release/5.1"], ["master"]])
+        names = names[:nb - 1] + ["master"] if nb > 1 else rng.choice([[names[0]], ["master"]])
     for b in range(nb):
         k = rng.randint(1, 5 if nb > 1 else 8)
         more, tips, cid = _gen_dag(rng, k, linear, first_id=cid)
@@ -362,25 +504,28 @@ def gen_parent(rng, comp, mode):
         branches[-1][1] = rng.choice([c for c, _ in commits])
     ptag = rng.choice([0.4, 0.6, 0.9])
     explicit = mode != "domain" and rng.random() < 0.5 or rng.random() < 0.15
+    exotic = rng.choice([0.0, 0.0, 0.0, 0.15, 0.4])
     pin_idx = {}
     spec = []
     for c, ps in sorted(commits):
         if mode == "domain" or rng.random() < 0.6:
             lo = max([pin_idx[p] for p in ps], default=rng.choice([0, 0, 0, 1, 2]))
-            lo = min(lo, len(versions) - 1)
-            idx = min(len(versions) - 1, lo + rng.choice([0, 0, 1, 1, 2, 3]))
-            pin = list(versions[idx])
+            lo = min(lo, len(versions_) - 1)
+            idx = min(len(versions_) - 1, lo + rng.choice([0, 0, 1, 1, 2, 3]))
+            pin = list(versions_[idx])
         else:
-            idx = rng.randrange(len(versions))
+            idx = rng.randrange(len(versions_))
             r = rng.random()
-            pin = list(versions[idx]) if r < 0.7 else [1, 1, 999] if r < 0.85 else None
+            v = versions_[idx]
+            # an existing build / a number no build has / an existing number in a series that has no builds / no pin
+            pin = list(v) if r < 0.7 else [v[0], v[1], v[2] + 999] if r < 0.8 else [v[0] + 3, v[1], v[2]] if r < 0.85 else None
         pin_idx[c] = idx
-        tags = [[5, branch_of[c], c]] if rng.random() < ptag else []
-        if tags and rng.random() < 0.08:
-            tags.append([5, branch_of[c], c + 1])
-        spec.append({"id": c, "p": ps, "m": int(explicit and rng.random() < 0.25), "tags": tags, "pin": pin})
+        d = {"id": c, "p": ps, "m": int(explicit and rng.random() < 0.25), "tags": [], "pin": pin}
+        if rng.random() < ptag:
+            _tag_commit(rng, exotic, d, PM, pm0 + branch_of[c] - 1, c + poff, rng.random() < 0.08)
+        spec.append(d)
     rng.shuffle(branches)
-    return {"commits": spec, "branches": branches}
+    return {"commits": _unique_tag_names(spec), "branches": branches}
 
 
 def gen_bump(rng, mode=None, linear_comp=None):
@@ -388,7 +533,7 @@ def gen_bump(rng, mode=None, linear_comp=None):
     for _ in range(50):
         linear = rng.random() < 0.45 if linear_comp is None else linear_comp
         comp = gen_component(rng, linear, two_branches=rng.random() < 0.25)
-        if any(c["tags"] for c in comp["commits"]):
+        if any(not has_qm(v) for c in comp["commits"] for v in versions(c)):
             break
     par = gen_parent(rng, comp, mode)
     return {"k": "bump", "comp": comp, "par": par}
@@ -428,12 +573,20 @@ def kind(case):
 
 
 # ------------------------------------------------------------------ implementation
+def _vc(x):
+    if isinstance(x, int) and not isinstance(x, bool) and x >= 0:
+        return x
+    if x == "?":
+        return QM
+    raise ValueError(f"version component {x!r}")
+
+
 def _bn3(b):
-    """BuildNumData / tuple -> [M, m, build]; patch must equal build"""
+    """BuildNumData / tuple -> [M, m, build] ('?' -> QM); patch must equal build"""
     t = b if isinstance(b, tuple) else b.as_tuple()
     if t[2] != t[3]:
         raise ValueError(f"patch != build in {t}")
-    return [t[0], t[1], t[3]]
+    return [_vc(t[0]), _vc(t[1]), _vc(t[3])]
 
 
 def _run_order(case):
@@ -480,15 +633,37 @@ def _run_bump(case):
     from ak.ghist import ProjectRepo, ReposCollection
     logging.disable(logging.CRITICAL)
 
+    import re
+    from ak.ghist import BuildNumData
+
     def read(self, path, blob):
         d = json.load(blob.data_stream)
         return {k: [int(x) for x in v.split(".")] for k, v in d.items()}
-    Par = type("Par", (ProjectRepo,), {"_COMPONENTS_VERSIONS_LOCATIONS": {"comp": "DEPENDS"}, "read_components_from_file": read})
-    Cmp = type("Cmp", (ProjectRepo,), {"_COMPONENTS_VERSIONS_LOCATIONS": {}, "read_components_from_file": read})
+
+    def read_saved(self, blob, path):
+        a, b, c = blob.data_stream.read().decode().strip().split(".")      # ValueError when it is not M.m.p
+        return BuildNumData(int(a), int(b), int(c))
+
+    def parse_buildtag(cls, tag_str):
+        m = re.match(r"ok-(\d+)\.(\d+)-(\d+)$", tag_str)
+        if m:
+            return BuildNumData(int(m.group(1)), int(m.group(2)), None, build=int(m.group(3)))
+        return cls._parse_default_buildtag(tag_str)
+    common = {"read_components_from_file": read, "_SAVED_BUILD_NUM_SOURCES": [SAVED_FILE],
+              "_read_saved_build_num_from_file": read_saved, "parse_buildtag": classmethod(parse_buildtag)}
+    Par = type("Par", (ProjectRepo,), {"_COMPONENTS_VERSIONS_LOCATIONS": {"comp": "DEPENDS"}, **common})
+    Cmp = type("Cmp", (ProjectRepo,), {"_COMPONENTS_VERSIONS_LOCATIONS": {}, **common})
     try:
-        rc = ReposCollection({"par": Par("par", MockRepo("par", case["par"], "comp"), "origin"),
-                              "comp": Cmp("comp", MockRepo("comp", case["comp"]), "origin")})
+        mpar, mcomp = MockRepo("par", case["par"], "comp"), MockRepo("comp", case["comp"])
+        rpar, rcomp = Par("par", mpar, "origin"), Cmp("comp", mcomp, "origin")
+        rc = ReposCollection({"par": rpar, "comp": rcomp})
         data = dict(rc.make_reports_data(SEARCH_TEXT))
+        # what a fresh builds detector says about every commit (tag -> build number, ascending)
+        vers = []
+        for repo, mock, spec in ((rcomp, mcomp, case["comp"]), (rpar, mpar, case["par"])):
+            det = repo.make_builds_detector()
+            vers.append([[list(b.as_tuple()) for b in det.get_builds_numbers(mock.commits[cid_])]
+                         for cid_ in sorted(c["id"] for c in spec["commits"])])
     except BaseException as e:  # noqa
         if type(e).__name__ == "Hang":
             raise
@@ -538,9 +713,10 @@ def _run_bump(case):
                             "x": [r.commit.cid for r in rb.get_printable_rcommits()],
                             "bump": bv, "other_bumps": sorted(k for k in rb.bumps if k != "comp")})
             pbr.append([pnames.index(rbranch.branch_name), rbs])
+        vers = [[[_bn3(tuple(b)) for b in bs] for bs in one] for one in vers]
     except (ValueError, KeyError) as e:
         return {"r": ["unmodelled", repr(e)]}
-    return {"r": ["ok"], "crbs": crbs, "bnmap": bnmap, "cbranches": branches, "par": pbr,
+    return {"r": ["ok"], "vers": vers, "crbs": crbs, "bnmap": bnmap, "cbranches": branches, "par": pbr,
             "cnames": [b.branch_name for b in cbranches],
             "sorted_repos": list(rc.sorted_repos)}
 
@@ -559,6 +735,23 @@ def c_bn(b):
 def c_nats(l):
     l = list(l)
     return "(@nil nat)" if not l else "[" + ";".join(str(int(x)) for x in l) + "]%nat"
+
+
+def c_rawtag(t):
+    if t[0] == "w":
+        return f"(TagWord, {SX.cZ(t[2])})%Z"
+    if t[0] == "f":
+        return f"(TagFull {SX.cZ(t[1])} {SX.cZ(t[2])}, {SX.cZ(t[3])})%Z"
+    return f"(TagRelease {SX.cZ(t[0])} {SX.cZ(t[1])}, {SX.cZ(t[2])})%Z"
+
+
+def c_rawtags(c):
+    return SX.clist(c_rawtag(t) for t in c.get("tags", []))
+
+
+def c_saved(c):
+    v = c.get("ver")
+    return f"(Some ({SX.cZ(v[0])}, {SX.cZ(v[1])})%Z)" if isinstance(v, list) else "None"
 
 
 def in_model(case, obs):
@@ -583,11 +776,11 @@ def coq_case(case, obs):
     commits = []
     for cid_ in ids:
         c = byid[cid_]
-        tags = SX.clist(c_bn(t) for t in c["tags"])
         pin = "None" if c["pin"] is None else f"(Some {c_bn(c['pin'])})"
-        commits.append(f"mkC {c_nats(pos[p] for p in c['p'])} {SX.cbool(c['m'])} {tags} {pin}")
+        commits.append(f"mkRawC {c_nats(pos[p] for p in c['p'])} {SX.cbool(c['m'])} {c_rawtags(c)} {c_saved(c)} {pin}")
     heads = SX.clist(f"({i}%nat, {pos[h]}%nat)" for i, (_, h) in enumerate(sorted_branches(par)))
-    return f"Bump (mkCI {ci_rbs} {ci_bn} {ci_br}) {SX.clist(commits)} {heads}"
+    ctags = SX.clist(f"({c_saved(c)}, {c_rawtags(c)})" for c in sorted(case["comp"]["commits"], key=lambda c: c["id"]))
+    return f"Bump (mkCI {ci_rbs} {ci_bn} {ci_br}) {ctags} {SX.clist(commits)} {heads}"
 
 
 def expected_sx(case, obs):
@@ -606,7 +799,7 @@ def expected_sx(case, obs):
     for bi, rbs in obs["par"]:
         brs.append([bi, [[rb["bn"], rb["t"], [pos[x] for x in rb["x"]], SX.opt(rb["bump"])] for rb in rbs]])
     inc = [[r["i"], r["at"]] for r in obs["crbs"]]
-    return SX.dumps(SX.ok([brs, inc]))
+    return SX.dumps(SX.ok([brs, inc, obs["vers"][0], obs["vers"][1]]))
 
 
 # ------------------------------------------------------------------ oracle (the statement, from the raw histories)
@@ -703,14 +896,20 @@ def in_domain(case):
     comp, par = case["comp"], case["par"]
     cpar = {c["id"]: c["p"] for c in comp["commits"]}
     canc = _ancestors(cpar)
-    tags = {c["id"]: [tuple(t) for t in c["tags"]] for c in comp["commits"]}
+    tags = {c["id"]: versions(c) for c in comp["commits"]}
     allv = [t for ts in tags.values() for t in ts]
     if len(allv) != len(set(allv)):
         return False
     for c, ts in tags.items():
         for a in canc[c] - {c}:
-            if any(ta >= tc for ta in tags[a] for tc in ts):
-                return False                      # build numbers increase along the component history
+            # build numbers increase along the component history (a build numbered '?'.'?'.n has no place in that
+            # order relative to the numbered ones: only compared with its like)
+            if any(ta >= tc for ta in tags[a] for tc in ts if has_qm(ta) == has_qm(tc)):
+                return False
+    for c in par["commits"]:
+        vs_ = versions(c)
+        if len(vs_) != len(set(vs_)):
+            return False                          # two tags of one parent commit denote the same build
     ppar = {c["id"]: c["p"] for c in par["commits"]}
     panc = _ancestors(ppar)
     pin = {c["id"]: c["pin"] for c in par["commits"]}
@@ -731,18 +930,27 @@ def _oracle_bump(case, obs):
     if r[0] == "err":
         return [("report-raises", f"make_reports_data raised {r[1]}")]
     if r[0] != "ok":
-        return []
+        return [("report-unreadable", f"the report carries a build number that is no (major, minor, build) triple: {r[1]}")]
     out = []
     comp, par = case["comp"], case["par"]
     cpar = {c["id"]: c["p"] for c in comp["commits"]}
     canc = _ancestors(cpar)
     cown, _ = _own(comp, canc)
-    vcommit = {tuple(t): c["id"] for c in comp["commits"] for t in c["tags"]}
+    vcommit = {v: c["id"] for c in comp["commits"] for v in versions(c)}
     ppar = {c["id"]: c["p"] for c in par["commits"]}
     panc = _ancestors(ppar)
     pown, pbrs = _own(par, panc)
     pin = {c["id"]: tuple(c["pin"]) for c in par["commits"]}
-    ptags = {c["id"]: sorted(tuple(t) for t in c["tags"]) for c in par["commits"]}
+    ptags = {c["id"]: sorted(versions(c), key=vkey) for c in par["commits"]}
+    # every commit's build numbers as a fresh builds detector reports them: exactly what its tags stand for
+    for which, spec, got in (("component", comp, obs["vers"][0]), ("parent", par, obs["vers"][1])):
+        for c, bs in zip(sorted(spec["commits"], key=lambda c: c["id"]), got):
+            want = sorted(versions(c), key=vkey)
+            if [tuple(b) for b in bs] != want:
+                out.append(("build-number-of-tag", f"{which} commit {c['id']} with tags {[tag_name(t) for t in c['tags']]}"
+                            f"{' and saved version ' + repr(c['ver']) if c.get('ver') is not None else ''}: "
+                            f"get_builds_numbers gives {bs}, the tags stand for {[list(v) for v in want]} ({QM} is '?')"))
+                break
     # builds of each parent branch: tagged commits first reached by that branch, and its head when unbuilt
     builds = {}
     for bi, (_, head) in enumerate(pbrs):
